@@ -269,6 +269,20 @@ def malformed_twin(fc):
     return make
 
 
+def terminates_lemma(fc, cls_qual):
+    """"nor stops serving": the one request decoder that walks its input with a while loop (groups of a file-record write) comes back - with a
+    message or an exception - on every byte string: each turn of the loop moves the cursor forward (variant byte_count - count), whatever the
+    reference-type byte and the lengths in the group header say"""
+    def lemma(E):
+        body = E.bytes('body', 1, 260)
+        dec = E.new(DEC)
+        out = E.attempt(lambda: E.method(dec, 'decode', E.as_bytes(L.concat([fc], body))))
+        E.prove('terminates:decode-returns-or-raises', L.Or(out.ok, L.Not(out.ok)))
+        if out.ok:
+            E.cover('decoded')
+    return lemma
+
+
 def truncated_datagram(E):
     """datagram front-ends hand every datagram to one framer: a datagram that announces more bytes than it carries (MBAP length larger than
     what arrived) is a malformed frame, not the beginning of one - it is discarded whole, so that nothing of it can be completed by bytes
@@ -294,6 +308,9 @@ def get_units():
     for fc in (5, 6, 15, 16, 22, 23):
         us.append(Unit('%s/malformed.fc%02d' % (PROP, fc), malformed_lemma(fc), [PROP], contracts=WRITE_CONTRACTS, twin=malformed_twin(fc),
                        functions=[M.REQ[fc] + '.decode', M.REQ[fc] + '.execute', DEC + '.decode', DEC + '._helper']))
+    q = 'pymodbus.file_message.WriteFileRecordRequest.decode'
+    us.append(Unit('%s/terminates.fc21' % PROP, terminates_lemma(0x15, q), [PROP], functions=[q, DEC + '.decode', DEC + '._helper'],
+                   loops={(q, 0): LoopAnn('groups', lambda v, j: True, variant=lambda v: v.byte_count - v.count)}))
     for c in WRITE_CONTRACTS + ST.STORE_CONTRACTS:
         us.append(c.unit())
     for fe in S.FRONTENDS:
